@@ -25,9 +25,20 @@ def run(req):
     if p < 1 or emax < 0 or emin > 0 or req["r"] not in MODES:
         return {"skip": "context outside Python's domain"}
     c = Context(prec=p, Emax=emax, Emin=emin, rounding=MODES[req["r"]], capitals=1, clamp=0, traps=[])
+    if req["op"] == "parse":
+        # exact conversion of a numeric string (no context); invalid syntax is an answer
+        try:
+            return {"s": str(Decimal(req["x"])), "f": 0}
+        except decimal.InvalidOperation:
+            return {"s": "<invalid>", "f": 0}
     x = EXACT.create_decimal(req["x"])
     y = EXACT.create_decimal(req.get("y") or "0")
     op = req["op"]
+    if op == "tosci":
+        return {"s": str(x), "f": 0}
+    if op == "tofloat":
+        import struct
+        return {"s": struct.pack(">d", float(x)).hex(), "f": 0}
     if op == "add":
         r = c.add(x, y)
     elif op == "sub":
